@@ -55,7 +55,7 @@ class Gen:
             kinds_leaf += ["async", "async"]
         if self.family == "script" and depth == 0:
             kinds_leaf = ["async"]
-        kinds_comb = ["then", "and", "all", "map_effect", "map_event"]
+        kinds_comb = ["then", "and", "all", "map_effect", "map_event", "into"]
         if self.family == "legacy":
             kinds_comb = ["and", "all"]
             kinds_leaf = ["done", "event", "notify", "chain", "chain", "async", "async"]
@@ -114,6 +114,9 @@ class Gen:
                     "cs": [{"tid": self.ids.next(), "c": self.cmd(depth + 1)} for _ in range(n)]}
         if k in ("map_effect", "map_event"):
             return {"k": k, "id": cid, "tid": tid, "f": r.choice(FS), "c": self.cmd(depth + 1)}
+        if k == "into":
+            return {"k": "into", "id": cid, "tid": tid, "id2": self.ids.next(), "tid2": self.ids.next(),
+                    "via_from": r.random() < 0.5, "c": self.cmd(depth + 1)}
         raise AssertionError(k)
 
     # ---- scripts --------------------------------------------------------------------------
